@@ -749,6 +749,11 @@ def main(tier, replay=None):
     if abs(float(electron_mass_eV) - ME) > 0:
         run.violation({"kind": "correspondence", "broken": f"electron_mass_eV = {electron_mass_eV!r} differs from Optics/Maps.v m_e = {ME}"}, no_input=True)
     proof_ok = run.proof_stage()
+    # second tie (Bmad-X / conversions): re-translated from REPO's source and proved equal to Bmadx/*.v, Beam/SI.v (Gen/BmadxGenEquiv.v)
+    import translate_stage
+    trx = translate_stage.translator_obligation_bmadx(run)
+    if trx["status"] != "ok":
+        run.notes.append("translator obligation (bmadx): " + json.dumps(translate_stage.replay_fields_bmadx(trx))[:600])
     # second tie: the linear-optics core is re-translated from REPO's source and proved equal to Optics/Maps.v (Gen/MapsGenEquiv.v)
     import translate_stage
     tr = translate_stage.translator_obligation(run)
@@ -890,6 +895,9 @@ def main(tier, replay=None):
     elif tr["status"] != "ok":
         # the source no longer translates to the proved model; none of this run's oracles found a failing input
         run.violation(translate_stage.replay_fields(tr), no_input=True)
+    elif trx["status"] != "ok":
+        # the Bmad-X / conversion source no longer translates to the proved model; none of this run's oracles found a failing input
+        run.violation(translate_stage.replay_fields_bmadx(trx), no_input=True)
     elif not proof_ok:
         run.violation({"kind": "proof", "broken": run.proof_problem}, no_input=True)
     return run.finish("proof")
